@@ -615,4 +615,152 @@ theorem skipValue_spec (b : Buf) (d : JDoc) (i : Nat) (t : List UInt8) (hwf : d.
   simp at hs
   exact value_spec b d _ i t hwf hr hfo (by simp only [valueFuel]; omega)
 
+
+/-! ### `match_str` -/
+
+theorem escChar_eq : ∀ e : UInt8, escChar e = escDecode e := by decide +kernel
+theorem escDecode_ne_zero : ∀ e c : UInt8, escDecode e = some c → c ≠ 0 := by
+  intro e
+  revert e
+  decide +kernel
+
+/-- reading the key string at the split point `kp | kr` -/
+theorem key_at (kp kr : List UInt8) :
+    rdR (cstr (kp ++ kr)) kp.length = .ok (match kr with | [] => 0 | k0 :: _ => k0) := by
+  have hlt : kp.length < (cstr (kp ++ kr)).size := by simp [cstr] <;> omega
+  rw [rdR_lt hlt]
+  cases kr <;> simp [cstr]
+
+theorem matchStep_nil (kp : List UInt8) (ch : UInt8) (found : Bool) :
+    matchStep (cstr (kp ++ [])) kp.length ch found = .ok (kp.length, found && ch == 0) := by
+  simp only [matchStep, key_at, Res.ok_bind]
+  simp
+
+theorem matchStep_cons (kp : List UInt8) (k0 : UInt8) (kr : List UInt8) (h0 : k0 ≠ 0) (ch : UInt8) (found : Bool) :
+    matchStep (cstr (kp ++ k0 :: kr)) kp.length ch found = .ok (kp.length + 1, found && ch == k0) := by
+  simp only [matchStep, key_at, Res.ok_bind]
+  simp [h0]
+
+theorem decide_map_cons (c k0 : UInt8) (o : Option (List UInt8)) (kr : List UInt8) :
+    decide (o.map (c :: ·) = some (k0 :: kr)) = (c == k0 && decide (o = some kr)) := by
+  cases o with
+  | none => simp
+  | some r =>
+    by_cases h1 : c = k0 <;> by_cases h2 : r = kr <;> simp [h1, h2]
+
+theorem decide_map_nil (c : UInt8) (o : Option (List UInt8)) : decide (o.map (c :: ·) = some []) = false := by
+  cases o <;> simp
+
+theorem matchStrF_spec (b : Buf) (s : JStr) : ∀ (f i : Nat) (found : Bool) (kp kr : List UInt8) (t : List UInt8),
+    (∀ c ∈ kp ++ kr, c ≠ 0) → Rest b i (serItems s ++ 0x22 :: t) → s.WF → (serItems s).length < f →
+    matchStrF b (cstr (kp ++ kr)) f i kp.length found =
+      .ok (i + (serItems s).length + 1, found && decide (JStr.decode s = some kr)) := by
+  induction s with
+  | nil =>
+    intro f i found kp kr t hk h _ hf
+    obtain ⟨f', rfl⟩ : ∃ f', f = f' + 1 := ⟨f - 1, by omega⟩
+    simp only [serItems, List.nil_append] at h
+    simp only [matchStrF, h.ne_end, Bool.false_eq_true, if_false, h.cons.2.1, Res.ok_bind, key_at]
+    cases kr with
+    | nil => simp [serItems, JStr.decode]
+    | cons k0 kr' =>
+      have : k0 ≠ 0 := hk k0 (by simp)
+      simp [serItems, JStr.decode, this]
+  | cons x xs ih =>
+    intro f i found kp kr t hk h hwf hf
+    obtain ⟨f', rfl⟩ : ∃ f', f = f' + 1 := ⟨f - 1, by omega⟩
+    have hxs : JStr.WF xs := fun y hy => hwf y (by simp [hy])
+    have hx := hwf x (by simp)
+    cases x with
+    | raw c =>
+      obtain ⟨h1, h2, h3⟩ := hx
+      simp only [serItems, SItem.ser, List.cons_append, List.nil_append] at h hf ⊢
+      have e1 : (c == 0x22) = false := by simpa using h1
+      have e2 : (c == 0x5c) = false := by simpa using h2
+      simp only [matchStrF, h.ne_end, Bool.false_eq_true, if_false, h.cons.2.1, Res.ok_bind, e1, e2]
+      cases kr with
+      | nil =>
+        rw [matchStep_nil, Res.ok_bind]
+        have := ih f' (i+1) (found && c == 0) kp [] t hk h.cons.2.2 hxs (by simp at hf; omega)
+        simp only [List.append_nil] at this ⊢
+        rw [this]
+        have e3 : (c == 0) = false := by simpa using h3
+        simp [JStr.decode, decide_map_nil, e3]; omega
+      | cons k0 kr' =>
+        have hk0 : k0 ≠ 0 := hk k0 (by simp)
+        rw [matchStep_cons kp k0 kr' hk0, Res.ok_bind]
+        have := ih f' (i+1) (found && c == k0) (kp ++ [k0]) kr' t (by simpa using hk) h.cons.2.2 hxs
+          (by simp at hf; omega)
+        simp only [List.append_assoc, List.singleton_append, List.length_append, List.length_singleton] at this
+        rw [this]
+        simp only [JStr.decode, decide_map_cons, List.length_cons]
+        simp only [Res.ok.injEq, Prod.mk.injEq]
+        refine ⟨by omega, ?_⟩
+        by_cases q : c = k0 <;> simp [q]
+    | esc e =>
+      simp only [serItems, SItem.ser, List.cons_append, List.nil_append] at h hf ⊢
+      have hx' : (escDecode e).isSome = true := hx
+      have e3 : (e == 0x75) = false := by simpa using escDecode_ne_u e hx'
+      obtain ⟨ch', hch⟩ := Option.isSome_iff_exists.mp hx'
+      have hch0 : ch' ≠ 0 := escDecode_ne_zero e ch' hch
+      have h' := h.cons.2.2
+      simp only [matchStrF, h.ne_end, Bool.false_eq_true, if_false, h.cons.2.1, Res.ok_bind,
+        show ((0x5c : UInt8) == 0x22) = false by decide, show ((0x5c : UInt8) == 0x5c) = true by decide, if_true,
+        h'.ne_end, h'.cons.2.1, e3, escChar_eq, hch]
+      cases kr with
+      | nil =>
+        rw [matchStep_nil, Res.ok_bind]
+        have := ih f' (i+2) (found && ch' == 0) kp [] t hk h'.cons.2.2 hxs (by simp at hf; omega)
+        simp only [List.append_nil] at this ⊢
+        rw [this]
+        have e4 : (ch' == 0) = false := by simpa using hch0
+        simp only [JStr.decode, hch, e4, Bool.and_false, Bool.false_and, List.length_cons]
+        cases JStr.decode xs <;> simp <;> omega
+      | cons k0 kr' =>
+        have hk0 : k0 ≠ 0 := hk k0 (by simp)
+        rw [matchStep_cons kp k0 kr' hk0, Res.ok_bind]
+        have := ih f' (i+2) (found && ch' == k0) (kp ++ [k0]) kr' t (by simpa using hk) h'.cons.2.2 hxs
+          (by simp at hf; omega)
+        simp only [List.append_assoc, List.singleton_append, List.length_append, List.length_singleton] at this
+        rw [this]
+        simp only [JStr.decode, hch, List.length_cons]
+        cases hd : JStr.decode xs with
+        | none => simp; omega
+        | some r =>
+          by_cases q1 : ch' = k0 <;> by_cases q2 : r = kr' <;> simp [q1, q2] <;> omega
+    | uni a b' c d =>
+      simp only [serItems, SItem.ser, List.cons_append, List.nil_append] at h hf ⊢
+      have h' := h.cons.2.2
+      have h6 : Rest b (i+6) (serItems xs ++ 0x22 :: t) := h'.cons.2.2.cons.2.2.cons.2.2.cons.2.2.cons.2.2
+      have hsz := h6.size
+      have h4 : ¬ (b.size - (i + 2) < 4) := by omega
+      simp only [matchStrF, h.ne_end, Bool.false_eq_true, if_false, h.cons.2.1, Res.ok_bind,
+        show ((0x5c : UInt8) == 0x22) = false by decide, show ((0x5c : UInt8) == 0x5c) = true by decide, if_true,
+        h'.ne_end, h'.cons.2.1, show ((0x75 : UInt8) == 0x75) = true by decide, h4]
+      cases kr with
+      | nil =>
+        rw [matchStep_nil, Res.ok_bind]
+        have := ih f' (i+6) (false && (0x5c : UInt8) == 0) kp [] t hk h6 hxs (by simp at hf; omega)
+        simp only [List.append_nil] at this ⊢
+        rw [this]
+        simp [JStr.decode]; omega
+      | cons k0 kr' =>
+        have hk0 : k0 ≠ 0 := hk k0 (by simp)
+        rw [matchStep_cons kp k0 kr' hk0, Res.ok_bind]
+        have := ih f' (i+6) (false && (0x5c : UInt8) == k0) (kp ++ [k0]) kr' t (by simpa using hk) h6 hxs
+          (by simp at hf; omega)
+        simp only [List.append_assoc, List.singleton_append, List.length_append, List.length_singleton] at this
+        rw [this]
+        simp [JStr.decode]; omega
+
+/-- `match_str` on the name of a member (entered after the opening quote): it stops after the closing quote and
+    reports whether the decoded name equals the key -/
+theorem matchStr_spec (b : Buf) (s : JStr) (i : Nat) (key t : List UInt8) (hk : ∀ c ∈ key, c ≠ 0)
+    (h : Rest b i (serItems s ++ 0x22 :: t)) (hwf : s.WF) :
+    matchStr b (cstr key) i = .ok (i + (serItems s).length + 1, decide (JStr.decode s = some key)) := by
+  have hs := h.size
+  simp at hs
+  have := matchStrF_spec b s (b.size - i + 1) i true [] key t (by simpa using hk) h hwf (by omega)
+  simpa [matchStr] using this
+
 end Percival.Proofs.JsonSpec
